@@ -117,7 +117,9 @@ class Interp:
                 raise cls(st["msg"])
             if op == "log":
                 self.trace.append(["logcall", ctxpos, st["msg"]])
-                ctx.logger.info(st["msg"])
+                # every level of the logger interface, chosen by the call itself (stable across invocations)
+                level = ("info", "debug", "warning", "error", "exception")[(sum(map(ord, st["msg"])) + len(ctxpos) + len(obs)) % 5]
+                getattr(ctx.logger, level)(st["msg"])
                 continue
             if op == "pad":
                 obs.append(st.get("ch", "~") * st["n"])
@@ -149,7 +151,8 @@ class Interp:
 
                     def fn(step_ctx, body=body, pos=pos):
                         attempt = step_ctx.logger._default_extra.get("attempt")
-                        self.trace.append(["enter", pos, "step", attempt, None])
+                        r_ = self.backend.by_pos(pos)
+                        self.trace.append(["enter", pos, "step", attempt, None, None if r_ is None else [r_.status, r_.attempt]])
                         self.tick_body()
                         o = body[min(attempt - 1, len(body) - 1)]
                         if "err" in o:
@@ -259,6 +262,10 @@ def run_invocation(script, backend: FakeBackend, plan, seed, schedule=None, limi
     """One invocation of the real wrapper.  Returns dict(out, raised, trace, logs, hung, ...)."""
     limits = limits or {}
     sim = Sim(schedule=schedule, seed=seed, policy="pct" if (seed or 0) % 3 == 0 else "random", max_points=120000, wall_limit=40, quiesce_limit=100.0)
+    if limits.get("fine"):
+        # every source line of the id-deriving code is a scheduling point
+        sim.line_points = lambda code: code.co_filename.endswith(("aws_durable_execution_sdk_python/context.py",
+                                                                  "aws_durable_execution_sdk_python/threading.py"))
     res = {"trace": [], "logs": []}
     backend.plan = plan
     backend.ticks = 0
